@@ -246,6 +246,60 @@ def replay_applies(F):
             rc.follows(arm("UpdateMetadata"), STORE, exit="any", exit_ev=NEXT, cut=[ABSENT])]
 
 
+def snapshot_contents(F):
+    """create_snapshot copies, for every slot of internal_to_external that holds Some(doc_id), the pair (doc_id, clone of
+    store.embeddings[slot]) and (doc_id, clone of store.metadata[slot]) — slot taken from the same enumerate() item, the
+    vectors and the metadata from the fields of those names, no further condition.  Decided on the four small closures of
+    the two filter_map pipelines (straight-line MIR: provenance of the returned tuple; their callers' only branch is
+    Option::map itself) and, in create_snapshot, on the provenance of Snapshot::new's document / metadata arguments."""
+    ei = field_index("hnsw_backend.rs", "DocumentStore", "embeddings")
+    mi = field_index("hnsw_backend.rs", "DocumentStore", "metadata")
+    ii = field_index("hnsw_backend.rs", "DocumentStore", "internal_to_external")
+    if None in (ei, mi, ii):
+        return [Result("inconclusive", "DocumentStore fields not found")]
+    out = []
+    outer = sorted(n for n in F if re.search(r"HnswBackend::create_snapshot::\{closure#0\}::\{closure#\d+\}$", n) and "Option::<u64>::map::<" in " ".join((b.term or "") for b in F[n].blocks.values()))
+    inner = sorted(n for n in F if re.search(r"HnswBackend::create_snapshot::\{closure#0\}::\{closure#\d+\}::\{closure#0\}$", n))
+    if len(outer) != 2 or len(inner) != 2:
+        return [Result("inconclusive", "create_snapshot's collection pipelines not in the recognised form (%d filter_map closures, %d map closures)" % (len(outer), len(inner)))]
+    seen_fields = set()
+    for n in outer:
+        fn = F[n]
+        nb = [b for b in fn.blocks.values() if not b.cleanup]
+        txt = " ".join(" ".join(b.stmts) + " " + (b.term or "") for b in nb)
+        ok = len(nb) == 2 and bool(re.search(r"_3 = copy \(_2\.0: usize\);", txt)) and bool(re.search(r"internal_id: move _7", txt)) and bool(re.search(r"_7 = &_3;", txt)) \
+            and bool(re.search(r"_5 = copy \(\*_4\);", txt)) and bool(re.search(r"_4 = copy \(_2\.1: &(std::option::)?Option<u64>\);", txt)) and bool(re.search(r"Option::<u64>::map::<.*\(move _5, move _6\)", txt))
+        out.append(Result("holds" if ok else "inconclusive", "%s: Some(doc_id) of the enumerate item is mapped with the item's own index as slot" % n.split("::")[-1] if ok else "%s: filter_map closure not in the recognised straight-line form" % n.split("::", 3)[-1],
+                          sample={"fn": n, "kind": "PROVENANCE"}))
+    for n in inner:
+        fn = F[n]
+        if any(b.kind == "switch" for b in fn.blocks.values() if not b.cleanup):
+            out.append(Result("violated", "%s decides on the slot's contents: a document may be left out of (or altered in) the snapshot although it is live" % n.split("::", 3)[-1], sample={"fn": n, "kind": "PROVENANCE"}))
+            continue
+        ret = [st for b in fn.blocks.values() if not b.cleanup for st in b.stmts if st.startswith("_0 = ")]
+        m = re.match(r"^_0 = \(copy _2, move (_\d+)\);$", ret[0]) if len(ret) == 1 else None
+        if not m:
+            out.append(Result("violated" if ret else "inconclusive", "%s returns `%s`, expected (doc_id, clone of the slot's value)" % (n.split("::", 3)[-1], (ret or ["?"])[0][:80]), sample={"fn": n, "kind": "PROVENANCE"}))
+            continue
+        o = _o(fn, m.group(1))
+        idx = [b for b in fn.blocks.values() if not b.cleanup and b.kind == "call" and "as std::ops::Index<usize>>::index(" in (b.term or "")]
+        ok = bool(re.search(r"as Clone>::clone$", o)) and len(idx) == 1
+        fld = None
+        if ok:
+            a = _M._split_top(idx[0].args)
+            src, slot = _o(fn, a[0]), _o(fn, a[1])
+            fm = re.search(r"\)\.(\d+): (std::vec::)?Vec<", src)
+            fld = int(fm.group(1)) if fm else None
+            ok = fld in (ei, mi) and bool(re.search(r"\(_1\.1: &usize\)", slot))
+        if ok:
+            seen_fields.add(fld)
+        out.append(Result("holds" if ok else "violated", ("%s returns (doc_id, store.%s[internal_id].clone())" % (n.split("::", 3)[-1], "embeddings" if fld == ei else "metadata")) if ok else
+                          "%s does not return a clone of the captured slot of store.embeddings / store.metadata (%s)" % (n.split("::", 3)[-1], o[:80]), sample={"fn": n, "kind": "PROVENANCE", "value": o[:100]}))
+    if seen_fields != {ei, mi}:
+        out.append(Result("violated", "the two pipelines of create_snapshot do not copy embeddings and metadata respectively (fields seen: %s)" % sorted(seen_fields), sample={"fn": H + "create_snapshot", "kind": "PROVENANCE"}))
+    return out
+
+
 def snapshot_seq(F):
     """create_snapshot: the sequence number recorded in the snapshot (and in the MANIFEST) is next_wal_seq - 1, read while the
     snapshot lock is held exclusively: every entry with a smaller or equal sequence number is in the store the snapshot
@@ -307,6 +361,8 @@ MOS = [
        snapshot_seq, functions=[("hnsw_backend.rs", "create_snapshot")]),
     MO("O2.6/update_logged_is_applied", "update_metadata: the WAL entry and the document store receive clones of the same final metadata; replay replaces (never merges) on UpdateMetadata",
        update_logged_is_applied, functions=[("hnsw_backend.rs", "update_metadata"), ("hnsw_backend.rs", "recover_with_hnsw_params_and_mode")]),
+    MO("O2.8/snapshot_contents", "create_snapshot: every live slot contributes (doc_id, clone of its vector) and (doc_id, clone of its metadata), slot = the enumerate index of the same item, no condition on the contents",
+       snapshot_contents, functions=[("hnsw_backend.rs", "create_snapshot")]),
     MO("O2.7/replay_applies", "recover: every non-skipped WAL entry takes effect before the next one is read — Insert inserts under entry.doc_id, Delete removes it, UpdateMetadata overwrites a present document's metadata with entry.metadata (no payload-dependent shortcut)",
        replay_applies, functions=[("hnsw_backend.rs", "recover_with_hnsw_params_and_mode")]),
     MO("O2.1/replay_skip", "recover: every WAL entry with seq_no > snapshot seq (or, legacy, newer than the snapshot timestamp) is applied, and no entry strictly older than the snapshot is re-applied — proved for all values (DECIDES)",
